@@ -306,6 +306,47 @@ def stepC (st : CSt) (args : List String) : CSt × String :=
         | some gs => renderGroupStatus (if showAll == "1" then gs else Group.filterView gs)
       (st', s!"rc={c} rg={g} {out} ~path={repr p}" ++ (if viol then " ~specviol=D16" else ""))
     | _, _, _ => (st, "bad-op")
+  | ["cbarrier"] => (st, "ok")
+  | ["cstop"] => (st, "ok")
+  | ["cbatch", kind, now, lanes] =>
+    match parseInt? now, st.store with
+    | some now, some s0 =>
+      if kind == "chaos" then
+        -- the outcome of a chaos batch is not determined; the real module is stopped and started afterwards,
+        -- which leaves every configured cluster empty
+        ({ st with store := some (Store.init s0.cfg (fetchClusterList s0)) }, "ok")
+      else
+        -- ordered batch: every group belongs to one lane and no lane writes what another reads, so the lanes
+        -- commute: run them one after another
+        let (s', outs) := (lanes.splitOn "|").zipIdx.foldl (fun (acc : Store × List String) (lane, li) =>
+          (lane.splitOn ",").zipIdx.foldl (fun (acc : Store × List String) (rs, idx) =>
+            let s := acc.1
+            match rs.splitOn "/" with
+            | ["commit", c, g, t, p, off, order, ts] =>
+              (match parseInt? p, parseInt? off, parseInt? order, parseInt? ts with
+               | some p, some off, some order, some ts =>
+                 ((addConsumerOffset s now { cluster := name c, group := name g, topic := name t, partition := p, offset := off, order, ts := now * 1000 + ts, allowMatch := true, denyMatch := false }).1, acc.2)
+               | _, _, _, _ => acc)
+            | ["owner", c, g, t, p, o, cl] =>
+              (match parseInt? p with
+               | some p => ((addConsumerOwner s { cluster := name c, group := name g, topic := name t, partition := p, owner := name o, clientID := name cl, allowMatch := true, denyMatch := false }).1, acc.2)
+               | none => acc)
+            | ["clear", c, g] => ((clearConsumerOwners s { cluster := name c, group := name g, allowMatch := true, denyMatch := false }).1, acc.2)
+            | ["delgroup", c, g, t] => ((deleteGroup s { cluster := name c, group := name g, topic := name t }).1, acc.2)
+            | ["broker", c, t, p, cnt, off] =>
+              (match parseInt? p, parseInt? cnt, parseInt? off with
+               | some p, some cnt, some off => ((addBrokerOffset s { cluster := name c, topic := name t, partition := p, topicPartitionCount := cnt, offset := off, ts := 1 }).1, acc.2)
+               | _, _, _ => acc)
+            | ["deltopic", c, t] => ((deleteTopic s { cluster := name c, topic := name t }).1, acc.2)
+            | ["consumer", c, g] =>
+              let (s', r) := fetchConsumer s now (name c) (name g)
+              let out := match r with
+                | .notFound => "nil" | .panic => "panic"
+                | .found topics => (renderTopics topics).replace " " "~"
+              (s', acc.2 ++ [s!"f{li}.{idx}={out}"])
+            | _ => acc) acc) (s0, [])
+        ({ st with store := some s' }, " ".intercalate ("ok" :: outs))
+    | _, _ => (st, "bad-op")
   | ["secrets", _] => (st, "ok")
   | ["httpinit", leaves] =>
     match parseCfg? leaves with
